@@ -113,6 +113,19 @@ def gen_case(rng, exact=True):
     elif rng.random() < 0.12:
         # chains of two-variable rows through eliminated variables (tactic 4 recursion), ending in a bound or in a dead end
         ts, ctx, elim, order = chain_case(rng, refine)
+    elif rng.random() < 0.12:
+        # the list of variables to eliminate names one of them TWICE (and perhaps one that occurs nowhere): the eliminated part of the
+        # term is bounded by rows over eliminated variables only (tactic 2), with an optimum of either sign
+        names = list(gen.VARS)
+        rng.shuffle(names)
+        x, y, z = names[:3]
+        a = F(rng.choice([1, 2, -1, -3]))
+        ts = [({x: gen.rand_coef(rng), y: a}, F(rng.randint(-4, 8)))]
+        sg = 1 if (a > 0) == refine else -1          # the side of y that the tactic's LP pushes against
+        ctx = [({y: F(sg)}, F(rng.randint(-6, 6)))] + ([({y: F(-sg)}, F(rng.randint(6, 9)))] if rng.random() < 0.5 else [])
+        elim = rng.choice([[y, y], [y, z, y], [y, y, z], [z, y, y]])
+        order = rng.choice([[1, 2, 3, 4, 5], [2], [2, 1], [1, 2]])
+        simplify = rng.random() < 0.5
     return ts, ctx, elim, refine, simplify, order
 
 
